@@ -841,6 +841,15 @@ func (m *Machine) libModel(pkg, name string, fn *ssa.Function, args []Value) (Va
 	case "internal/race.Enable", "internal/race.Disable", "internal/race.Acquire", "internal/race.Release", "internal/race.ReleaseMerge",
 		"internal/race.Read", "internal/race.Write", "internal/race.ReadRange", "internal/race.WriteRange":
 		return nil, true
+	case "strconv.FormatInt", "strconv.FormatUint", "strconv.Itoa":
+		t := termOf(args[0])
+		if t.C != nil || bvMode {
+			return nil, false
+		}
+		if name != "strconv.Itoa" && cint(args[1]) != 10 {
+			return nil, false
+		}
+		return m.formatDecimal(t), true
 	case "strconv.ParseFloat":
 		if s, ok := args[0].(string); ok {
 			f, err := strconv.ParseFloat(s, cint(args[1]))
@@ -922,6 +931,8 @@ func (m *Machine) libModel(pkg, name string, fn *ssa.Function, args []Value) (Va
 		return nil, false
 	case "time.Now":
 		unsupported("time.Now reached without a harness stub")
+	case "time.initLocal":
+		return nil, true // the local zone behaves as UTC
 	case "time.Sleep":
 		m.yieldPoint("sleep")
 		return nil, true
@@ -1011,3 +1022,56 @@ func (m *Machine) errorsIs(err, target Iface) Value {
 }
 
 var _ = big.NewInt
+
+// formatDecimal renders a symbolic integer as decimal text: forks on sign and digit count,
+// each digit is the term 48 + (v div 10^k) mod 10.
+func (m *Machine) formatDecimal(v *Term) Value {
+	neg := false
+	if !(v.Lo != nil && v.Lo.Sign() >= 0) {
+		if m.branch(tCmp("lt", v, mkI(0, v.W), true)) {
+			neg = true
+			v = m.nameTerm(rawSub(mkI(0, v.W), v))
+		} else {
+			c := *v
+			c.Lo = big0
+			v = &c
+		}
+	}
+	maxDigits := 20
+	if v.Hi != nil {
+		maxDigits = len(v.Hi.String())
+	}
+	var conds []*Term
+	p := big.NewInt(10)
+	for n := 1; n <= maxDigits; n++ {
+		hi := tCmp("lt", v, mkConst(new(big.Int).Set(p), v.W), true)
+		if n == maxDigits {
+			hi = tTrue
+		}
+		lo := tTrue
+		if n > 1 {
+			lo = tCmp("ge", v, mkConst(new(big.Int).Quo(p, big.NewInt(10)), v.W), true)
+		}
+		conds = append(conds, tAnd(lo, hi))
+		p = new(big.Int).Mul(p, big.NewInt(10))
+	}
+	n := 1 + m.decide(conds)
+	out := make(SStr, 0, n+1)
+	if neg {
+		out = append(out, mkU('-', 8))
+	}
+	for k := n - 1; k >= 0; k-- {
+		d := pow10(k)
+		var q *Term
+		if k == 0 {
+			q = v
+		} else {
+			q = &Term{S: "(div " + v.S + " " + d.String() + ")", K: KInt, W: 8}
+		}
+		dig := &Term{S: "(+ 48 (mod " + q.S + " 10))", K: KInt, W: 8, Lo: big.NewInt(48), Hi: big.NewInt(57)}
+		out = append(out, m.nameTerm(dig))
+	}
+	return out
+}
+
+func pow10(k int) *big.Int { return new(big.Int).Exp(big.NewInt(10), big.NewInt(int64(k)), nil) }
